@@ -214,14 +214,19 @@ class MonitoredList(MonitoredContainer, list):
         if isinstance(idx, slice):
             # record every element on its own (the values may come from a one-shot iterator, and two distinct
             # elements may compare equal)
-            value = [self._on_add(v) for v in value]
+            value = list(value)
+            super().__setitem__(idx, value)
+            for v in value:
+                self._on_add(v)
         else:
-            value = self._on_add(value)
-        super().__setitem__(idx, value)
+            # store first: inference may append to this very list, which would shift a negative index
+            super().__setitem__(idx, value)
+            self._on_add(value)
 
     def insert(self, idx, item):
-        item = self._on_add(item)
+        # store first: inference may append to this very list, which would shift a negative index
         super().insert(idx, item)
+        self._on_add(item)
 
     def _holds(self, value) -> bool:
         # a list can hold two distinct symbols that compare equal
